@@ -82,6 +82,11 @@ Theorem C02_sync_fast_path_needs_empty_list : forall s t k e s',
 Proof. exact fast_path_needs_empty_list. Qed.
 Print Assumptions C02_sync_fast_path_needs_empty_list.
 
+(* the atomic sites of the fast path (initial load, weak compare-exchange with acquire) are the ones read from the source *)
+Theorem C02_sync_fast_path_sites : model_sites_fast_path = f_dispatch_queue_try_acquire_barrier_sync_and_suspend_sites.
+Proof. exact sites_fast_path. Qed.
+Print Assumptions C02_sync_fast_path_sites.
+
 (* the whole invariant *)
 Theorem C02_sync_invariant : forall s h, xreach s h -> HInv s h.
 Proof. exact HInv_reach. Qed.
